@@ -6,7 +6,7 @@ From Coq Require Import String ZArith QArith Bool Arith Lia Permutation List.
 From GT Require Import Base.UTree Model.Reroot Model.Prune Model.Collapse Model.NNI Model.History Model.Heap Model.HeapEdit Model.HeapSpec
      Proofs.Enum Proofs.HeapBase Proofs.HeapRep Proofs.HeapGood Proofs.HeapGoodRep Proofs.HeapReroot Proofs.HeapUnroot
      Proofs.HeapNocheck Proofs.HeapGraft Proofs.HeapGraftSq Proofs.HeapCollapseTree Proofs.HeapPaths Proofs.HeapCollapseSq
-     Proofs.HeapRerootL Proofs.HeapNNIMain Proofs.HeapNNISq Proofs.HeapPruneTree Proofs.HeapPruneSq Proofs.HeapRotateSq.
+     Proofs.HeapRerootL Proofs.HeapNNIMain Proofs.HeapNNISq Proofs.HeapPruneTree Proofs.HeapPruneSq Proofs.HeapRotateSq Model.HeapEdit2 Proofs.HeapSortSq Proofs.HeapSingleSq.
 Import ListNotations.
 Local Close Scope Q_scope.
 
@@ -36,7 +36,7 @@ Qed.
 Theorem run_hop_square o h t h' : Good h -> abs h = Some t -> run_hop_heap o h = HOk h' ->
   Good h' /\ exists t', run_hop_tree o t = Ok t' /\ abs h' = Some t'.
 Proof.
-  intros G Ha E. destruct o as [i|i| |name k|rr rt k|r|nm|cs]; cbn [run_hop_heap run_hop_tree] in *.
+  intros G Ha E. destruct o as [i|i| |name k|rr rt k|r|nm|cs| | ]; cbn [run_hop_heap run_hop_tree] in *.
   - destruct (tree_nodes h) as [ns| |] eqn:En; cbn [hbind] in E; try discriminate.
     destruct (nth_error ns i) as [n|] eqn:Ei; [|discriminate].
     pose proof (reroot_heap_refines h t ns i n G Ha En Ei) as H. rewrite E in H.
@@ -84,6 +84,10 @@ Proof.
     destruct Sq as (h2 & Ev & G2 & A2). rewrite Ev in E. injection E as <-. split; [exact G2|]. exists t'. split; [reflexivity|exact A2].
   - destruct (rotate_internal_nodes_square h t cs G Ha) as (h2 & Ev & G2 & A2). rewrite Ev in E. injection E as <-.
     split; [exact G2|]. eexists. split; [reflexivity|exact A2].
+  - destruct (sort_neighbors_square h t G Ha) as (h2 & Ev & G2 & A2). rewrite Ev in E. injection E as <-.
+    split; [exact G2|]. eexists. split; [reflexivity|exact A2].
+  - destruct (remove_single_nodes_square h t G Ha) as (h2 & Ev & G2 & A2). rewrite Ev in E. injection E as <-.
+    split; [exact G2|]. eexists. split; [reflexivity|exact A2].
 Qed.
 
 (** the pointer-level half of C03 for these operations, as one statement *)
@@ -103,4 +107,8 @@ Proof. reflexivity. Qed.
 Lemma run_hop_tree_history_unroot t : run_hop_tree HUnroot t = run_op OUnroot t.
 Proof. reflexivity. Qed.
 Lemma run_hop_tree_history_rotate cs t : run_hop_tree (HRotate cs) t = run_op (ORotate cs) t.
+Proof. reflexivity. Qed.
+Lemma run_hop_tree_history_sort t : run_hop_tree HSort t = run_op OSort t.
+Proof. reflexivity. Qed.
+Lemma run_hop_tree_history_rmsingle t : run_hop_tree HRmSingle t = run_op ORmSingle t.
 Proof. reflexivity. Qed.
